@@ -73,7 +73,7 @@ func targetMethod(r *rand.Rand, p *synth.Project, withBody, withForm bool) synth
 	return m
 }
 
-var PerturbationIDs = []string{"P0", "P1", "P2", "P3", "P3b", "P3c", "P22", "P22d", "P15d", "P16d", "P18d", "P6d", "PX1", "PX2", "PX3", "PX4", "PX5", "PE1", "PE2", "P4", "P5", "P6", "P7", "P8q", "P8h", "P8b", "P8f", "P9", "P10", "P11s", "P11m", "P11t", "P12", "P13a", "P13b", "P14a", "P14b", "P15", "P16", "P17", "P18", "P20", "P21", "PC1", "PC2", "PC3", "PC4"}
+var PerturbationIDs = []string{"P0", "P1", "P2", "P3", "P3b", "P3c", "P22", "P22d", "P15d", "P16d", "P18d", "P6d", "PX1", "PX2", "PX3", "PX4", "PX5", "PE1", "PE2", "PE3", "P4", "P5", "P6", "P7", "P8q", "P8h", "P8b", "P8f", "P9", "P10", "P11s", "P11m", "P11t", "P12", "P13a", "P13b", "P14a", "P14b", "P15", "P16", "P17", "P18", "P20", "P21", "PC1", "PC2", "PC3", "PC4"}
 
 func paramIdx(m *synth.Method, name string) int {
 	for i, p := range m.Params {
@@ -210,6 +210,35 @@ func ApplyPerturbation(p *synth.Project, id string, r *rand.Rand) *Perturbation 
 				break
 			}
 		}
+	case "PE3":
+		// the mirror image of PE2: Target is fine, the offender lives in a controller of another package
+		pt.Rule, pt.Expect, pt.Listed = "a controller of another package returns a struct that does not embed error while Target returns its own valid error type of the same name", "reject", false
+		applied := false
+		for ci := 1; ci < len(p.Controllers); ci++ {
+			c2 := &p.Controllers[ci]
+			if c2.Pkg == c.Pkg || len(c2.Methods) == 0 {
+				continue
+			}
+			if p.Struct(c2.Pkg, "TargetBad") == nil {
+				p.Structs = append(p.Structs, synth.Struct{Name: "TargetBad", Pkg: c2.Pkg, Fields: []synth.Field{{GoName: "Why", Type: synth.Prim("string"), JSONName: "why"}}})
+			}
+			for mi := range c2.Methods {
+				if c2.Methods[mi].IsEndpoint() && !applied {
+					c2.Methods[mi].ErrType, c2.Methods[mi].ErrPtr = "TargetBad", false
+					applied = true
+				}
+			}
+			break
+		}
+		if !applied {
+			pt.Applied = false
+			pt.Rule, pt.Expect = "unperturbed well-formed route (PE3 needs a second controller package)", "accept"
+			break
+		}
+		if p.Struct(c.Pkg, "TargetBad") == nil {
+			p.Structs = append(p.Structs, synth.Struct{Name: "TargetBad", Pkg: c.Pkg, IsError: true, Fields: []synth.Field{{GoName: "Why", Type: synth.Prim("string"), JSONName: "why"}}})
+		}
+		m.ErrType, m.ErrPtr = "TargetBad", false
 	case "PX5":
 		pt.Rule, pt.Expect = "two unreferenced parameters declared as one grouped field that spans two source lines", "reject"
 		m.Params = append(m.Params, synth.Param{GoName: "mlFirst", Type: synth.Prim("string"), In: "query", BreakBefore: true}, synth.Param{GoName: "mlSecond", Type: synth.Prim("string"), In: "query", BreakBefore: true})
